@@ -123,10 +123,13 @@ func processQuery(input string, codeGraph *graph.CodeGraph, output string) (stri
 	if err != nil {
 		return "", err
 	}
-	parts := strings.SplitN(input, "WHERE", 2)
-	if len(parts) > 1 {
-		parsedQuery.Expression = strings.SplitN(parts[1], "SELECT", 2)[0]
+	// the condition handed to the evaluator comes from the parse tree, with predicate calls
+	// already expanded, so nothing is left for the textual expansion to do
+	parsedQuery.Expression, err = parser.ExpandedCondition(input)
+	if err != nil {
+		return "", err
 	}
+	parsedQuery.PredicateInvocation = nil
 	entities, formattedOutput := graph.QueryEntities(codeGraph, parsedQuery)
 	if output == "json" || output == "sarif" {
 		analytics.ReportEvent(analytics.QueryCommandJSON)
